@@ -482,10 +482,8 @@ Producible(k, m) ==
     /\ k = "type" => /\ m["target_foreign"] = VNone                              \* no scanner code sets target_foreign
                      /\ (Str(m["target_giname"]) \in ContainerNames => "bare_container" \in Defects)
                      /\ ~(m["target_fundamental"] # VNone /\ m["target_giname"] # VNone)
-    /\ k = "function" => /\ ~(Truthy(m["shadows"]) /\ Truthy(m["shadowed_by"]))     \* refused with a warning
-                         /\ (Str(m["role"]) \in {"ctor", "static"} => TRUE)
+    /\ k = "function" => ~(Truthy(m["shadows"]) /\ Truthy(m["shadowed_by"]))        \* refused with a warning
     /\ (k \in {"enum", "bitfield", "record", "union"}) => ((m["gtype_name"] = VNone) <=> (m["get_type"] = VNone))   \* ast.Registered asserts it
-    /\ k = "array" => /\ (m["length_param_name"] # VNone => Str(m["host"]) \in {"callable", "compound", "compound_after_anon"})
-                      /\ (Str(m["host"]) = "elem" => m["size"] = VNone \/ TRUE)
-    /\ k = "namespace" => TRUE
+    \* (array length=) is refused on class fields (AttributeError printed by _apply_annotations_field) and on element types
+    /\ k = "array" => (m["length_param_name"] # VNone => Str(m["host"]) \in {"callable", "compound", "compound_after_anon"})
 =============================================================================
